@@ -184,6 +184,8 @@ def gen_case_c03(rng):
         if rng.random() < 0.67:
             pool = [k for k in pool if k not in ('a_b', '1')]
     keys = rng.sample(pool, min(len(pool), rng.choice([3, 5, 8])))
+    if b['kind'] == 'dir' and not is_source(b) and rng.random() < 0.04:
+        keys.append('L' * 300)     # entry directory name beyond the 255-byte limit (recorded finding)
     u = Uniq()
     ops = []
     for _ in range(n):
@@ -255,6 +257,15 @@ class Run03(object):
         al = dir_alias(self.b, self.keys_used)
         if al is not None and (not keys or any(k in al for k in keys)):
             mech = ['dir-fname-alias']
+        if self.b['kind'] == 'dir':
+            from kv.cachemon import dir_fname
+            def _long(k):
+                try:
+                    return len(('K_' + dir_fname(k)).encode('utf-8')) > 255
+                except Exception:
+                    return False
+            if any(_long(k) for k in (keys or self.keys_used)):
+                mech = mech + ['dir-entry-name-too-long']
         self.viol.append({'property': 'C03', 'kind': kind, 'msg': msg[:600], 'mech': mech,
                           'step': self.step, 'case': self.case})
 
@@ -537,6 +548,30 @@ class Run03(object):
                 other.__drop__()
             except Exception:
                 pass
+        if b['kind'] in ('file', 'dir') or (b['kind'] == 'sql' and not b.get('memory')):
+            # an archive with the *same last path component / table name* stored elsewhere is another archive
+            sub = os.path.join(self.root, 'elsewhere%d' % self.step)
+            os.makedirs(sub)
+            twin = open_archive(b, sub, cached=False)
+            self.note('c03_eq_same_basename_checks')
+            try:
+                twin.update(dict(M))
+                twin['only-in-the-twin'] = 2
+                if (a == twin) or not (a != twin):
+                    self.bad('eq-wrong', 'two archives with the same base name in different places and different '
+                             'contents compare equal')
+                if not same_dict(dict(a.items()), M):
+                    self.bad('other-archive-changed', 'writing to an archive with the same base name stored elsewhere '
+                             'changed this one')
+                twin.pop('only-in-the-twin')
+                if not (a == twin) or (a != twin):
+                    self.bad('eq-wrong', 'archives with equal contents (same base name, different places) compare unequal')
+            finally:
+                conn = getattr(twin, '_conn', None)
+                if conn is not None:
+                    conn.close()
+                import shutil
+                shutil.rmtree(sub, ignore_errors=True)
 
 
 def _s(v):
@@ -831,6 +866,17 @@ def run_shard(prop, tier, seed, shard, nshards, opts):
            'cells': {}, 'anchors': {}, 'notes': []}
     from kv import reach
     mon = reach.Reach(); mon.start()
+    if shard == 0 and prop == 'C03':
+        # directed witnesses of the recorded findings (same judge): they keep the KNOWN-FINDING lines on every
+        # run and simply pass once a defect is repaired
+        dirb = {'kind': 'dir', 'serialized': True, 'protocol': None}
+        for ops in ([['set', 'L' * 300, 1], ['get', 'L' * 300], ['set', 'short', 2], ['len']],
+                    [['set', 'a-b', 1], ['set', 'a_b', 2], ['get', 'a-b'], ['len']]):
+            case = {'backend': dirb, 'cached': False, 'ops': ops, 'seed': 1, 'directed': True}
+            r, viol = run_case(case, prop)
+            res['cases'] += 1
+            res['counters']['directed_cases'] = res['counters'].get('directed_cases', 0) + 1
+            res['violations'].extend(viol[:4])
     i = shard
     while i < n_total and time.time() - t0 < budget:
         rng = gen.make_rng('archmon', prop, seed, i)
